@@ -231,7 +231,9 @@ class Unit:
         lc = self.loop_contracts.get((key, k))
         if lc is not None:
             self.used_loop_keys.add((key, k))
-            return list(lc)
+            # VERIF_LC(...) vanishes under -DVERIF_NO_LOOP_CONTRACTS (bounded runs unwind the loop instead; an annotation that
+            # names a variable the current code no longer has must not stop those runs from compiling)
+            return ['VERIF_LC(%s)' % l for l in lc]
         return []
 
     # helper function generators --------------------------------------------------------------------
@@ -250,8 +252,9 @@ class Unit:
             body = ['  %s r = vec_%s_copy_shallow(s);' % (ct, tag(t[1]))]
             if inner:
                 body.append('#if defined(VERIF_CBMC) && defined(VERIF_ABSTRACT)')
-                body.append('  /* every element is deep-copied: stated for the arbitrary ghost position verif_g */')
-                body.append('  if (verif_g < s->size) r.data[verif_g] = %s(&s->data[verif_g]);' % inner)
+                body.append('  /* every element is deep-copied: stated for the arbitrary ghost element position verif_g2 (verif_g is the')
+                body.append('   * ghost BYTE position inside the strings of that element) */')
+                body.append('  if (verif_g2 < s->size) r.data[verif_g2] = %s(&s->data[verif_g2]);' % inner)
                 body.append('#else')
                 body.append('  for (size_t i = 0; i < s->size; ++i) VERIF_MODEL_LOOP r.data[i] = %s(&s->data[i]);' % inner)
                 body.append('#endif')
@@ -539,7 +542,7 @@ class Unit:
         out.append('#ifndef VERIF_NO_EXC_DEFS')
         out.append('int verif_exc = 0;')
         out.append('#ifdef VERIF_CBMC')
-        out.append('size_t verif_g; size_t verif_sum; size_t verif_elem; verif_call_t verif_calls[24]; size_t verif_ncalls; const void* verif_mark[4];')
+        out.append('size_t verif_g; size_t verif_g2; uint64_t verif_written; size_t verif_sum; size_t verif_elem; verif_call_t verif_calls[24]; size_t verif_ncalls; const void* verif_mark[4];')
         out.append('#endif')
         out.append('static int verif_exc_parent_of(int e) { switch (e) {')
         depth = 1
